@@ -3,6 +3,7 @@ package rules
 import (
 	"fmt"
 	"go/ast"
+	"go/constant"
 	"go/token"
 	"go/types"
 	"strings"
@@ -19,13 +20,14 @@ func init() {
 			"(R1) in the registering function the limit test on the un-narrowed count dominates every store into the type→id map, the id→type list, the used mask and the id list, and nothing else inserts into the map; this establishes Count() ∈ [0, maskTotalBits]; " +
 			"(R2) registry growth on a locked world: after the registering call every path either learned that no new id was created or passes a lock test; the locked branch calls the unregister role and panics; the storage is extended only on the unlocked continuation; every field written by registration is restored by un-registration or listed with a reason; " +
 			"(R3) interval analysis: every non-constant index into a fixed-size array in the mask and registry code is inside the array at the documented maximum, and every narrowing conversion of a computed id to uint8 is loss-free; " +
-			"(R4) resources: the slot is tested before it is stored or cleared, and slots are indexed by the registry id. Not decided: use of the highest ids in queries (mask arithmetic); stability across arbitrary histories beyond R1.",
+			"(R4) resources: the slot is tested before it is stored or cleared, and slots are indexed by the registry id. (R5) grow-before-index: where a slice is re-allocated under the guard that its length does not exceed an index and is then indexed with it (the neighbour maps of the archetype graph), the new length provably exceeds the index. Not decided: use of the highest ids in queries (mask arithmetic); stability across arbitrary histories beyond R1.",
 		TrustedBase: []string{"go/types, go/cfg", "interval arithmetic over Go integer types", "Count() ≤ limit follows from R1"},
 		Rules: []Rule{
 			{ID: "C18/R1", Run: c18r1, Min: 1},
 			{ID: "C18/R2", Run: c18r2, Min: 1},
 			{ID: "C18/R3", Run: c18r3, Min: 1},
 			{ID: "C18/R4", Run: c18r4, Min: 1},
+			{ID: "C18/R5", Run: c18r5, Min: 1},
 		},
 	})
 }
@@ -587,4 +589,174 @@ func isUnregister(m *core.Model, f *core.Func) bool {
 		return true
 	})
 	return found
+}
+
+// c18r5: grow-before-index. Where a slice is re-allocated under the guard "its length does not exceed index i" and
+// then indexed with i, the new length must provably exceed i: the length expression is bounded from below relative to
+// i (i + k with k >= 1), using floor((a)/c)*c >= a-(c-1) for the round-up-to-chunk idiom. This is what makes every
+// id up to the documented maximum usable as a key of the per-node neighbour maps of the archetype graph.
+func c18r5(c *core.Ctx) {
+	m := c.M
+	n := 0
+	for _, f := range m.AllFuncs() {
+		core.InspectNoLits(f.Body, func(x ast.Node) bool {
+			is, ok := x.(*ast.IfStmt)
+			if !ok || is.Else != nil {
+				return true
+			}
+			// guard: len(X) <= I  |  I >= len(X)  |  len(X) < I+1 is not needed here
+			be, ok := ast.Unparen(is.Cond).(*ast.BinaryExpr)
+			if !ok {
+				return true
+			}
+			var lenArg, idx ast.Expr
+			lenOf := func(e ast.Expr) ast.Expr {
+				if call, ok := ast.Unparen(m.StripConv(e)).(*ast.CallExpr); ok && m.IsBuiltin(call, "len") && len(call.Args) == 1 {
+					return call.Args[0]
+				}
+				return nil
+			}
+			switch be.Op {
+			case token.LEQ:
+				lenArg, idx = lenOf(be.X), be.Y
+			case token.GEQ:
+				lenArg, idx = lenOf(be.Y), be.X
+			}
+			if lenArg == nil || fieldKeyOf(m, lenArg) == "" {
+				return true
+			}
+			key := fieldKeyOf(m, lenArg)
+			idxObj := rootIdent(m, idx)
+			if idxObj == nil {
+				return true
+			}
+			// the new length: make([]T, N, ...) assigned to the field directly or through a local in the body
+			var newLen ast.Expr
+			ast.Inspect(is.Body, func(y ast.Node) bool {
+				if call, ok := y.(*ast.CallExpr); ok && m.IsBuiltin(call, "make") && len(call.Args) >= 2 {
+					if _, isSlice := m.Info.TypeOf(call).Underlying().(*types.Slice); isSlice {
+						newLen = call.Args[1]
+					}
+				}
+				return true
+			})
+			stored := false
+			ast.Inspect(is.Body, func(y ast.Node) bool {
+				if as, ok := y.(*ast.AssignStmt); ok {
+					for _, l := range as.Lhs {
+						if fieldKeyOf(m, l) == key {
+							stored = true
+						}
+					}
+				}
+				return true
+			})
+			if newLen == nil || !stored {
+				return true
+			}
+			// indexed with the same variable afterwards
+			used := false
+			core.InspectNoLits(f.Body, func(y ast.Node) bool {
+				if ix, ok := y.(*ast.IndexExpr); ok && ix.Pos() > is.End() && fieldKeyOf(m, ix.X) == key && rootIdent(m, ix.Index) == idxObj {
+					used = true
+				}
+				return true
+			})
+			if !used {
+				return true
+			}
+			n++
+			subject := fmt.Sprintf("%s: %s grown for index %s", f.Name, key, m.ExprString(idx))
+			coef, k, okB := lowerBoundRel(m, f, newLen, idxObj, 0)
+			switch {
+			case okB && coef >= 1 && k >= 1:
+				c.OK("C18/R5", subject, c.At(is.Pos()), fmt.Sprintf("new length %s >= %s + %d", m.ExprString(newLen), m.ExprString(idx), k))
+			default:
+				c.Violation("C18/R5", subject, c.At(is.Pos()), fmt.Sprintf("%s re-allocates %s with length %s when its length does not exceed %s and then indexes it with %s, but the new length cannot be shown to exceed the index (lower bound: %d*index%+d); for some ids the index is out of range", f.Name, key, m.ExprString(newLen), m.ExprString(idx), m.ExprString(idx), coef, k))
+			}
+			return true
+		})
+	}
+	if n == 0 {
+		c.OK("C18/R5", "grow-before-index sites", "", "no slice is re-allocated under an index guard and indexed afterwards")
+	}
+}
+
+// rootIdent returns the variable that e denotes after conversions, or nil.
+func rootIdent(m *core.Model, e ast.Expr) types.Object {
+	if id, ok := ast.Unparen(m.StripConv(e)).(*ast.Ident); ok {
+		return m.Info.ObjectOf(id)
+	}
+	return nil
+}
+
+// lowerBoundRel computes a lower bound coef*v + k of the non-negative integer expression e, for v >= 0.
+func lowerBoundRel(m *core.Model, f *core.Func, e ast.Expr, v types.Object, depth int) (coef int64, k int64, ok bool) {
+	if depth > 6 {
+		return 0, 0, false
+	}
+	e = ast.Unparen(m.StripConv(e))
+	if tv, isC := m.Info.Types[e]; isC && tv.Value != nil {
+		if c, exact := constant.Int64Val(constant.ToInt(tv.Value)); exact {
+			return 0, c, true
+		}
+	}
+	switch x := e.(type) {
+	case *ast.Ident:
+		if m.Info.ObjectOf(x) == v {
+			return 1, 0, true
+		}
+		if lv, isVar := m.Info.ObjectOf(x).(*types.Var); isVar && !lv.IsField() {
+			if ds := localDefsOf(m, f, lv); len(ds) == 1 {
+				return lowerBoundRel(m, f, ds[0], v, depth+1)
+			}
+		}
+	case *ast.BinaryExpr:
+		switch x.Op {
+		case token.ADD:
+			a1, k1, ok1 := lowerBoundRel(m, f, x.X, v, depth+1)
+			a2, k2, ok2 := lowerBoundRel(m, f, x.Y, v, depth+1)
+			if ok1 && ok2 {
+				return a1 + a2, k1 + k2, true
+			}
+		case token.SUB:
+			a1, k1, ok1 := lowerBoundRel(m, f, x.X, v, depth+1)
+			if tv, isC := m.Info.Types[x.Y]; ok1 && isC && tv.Value != nil {
+				if c, exact := constant.Int64Val(constant.ToInt(tv.Value)); exact {
+					return a1, k1 - c, true
+				}
+			}
+		case token.MUL:
+			// (A / C) * C  >=  A - (C-1)
+			cv := func(y ast.Expr) (int64, bool) {
+				if tv, isC := m.Info.Types[y]; isC && tv.Value != nil {
+					return constant.Int64Val(constant.ToInt(tv.Value))
+				}
+				return 0, false
+			}
+			try := func(q, cexpr ast.Expr) (int64, int64, bool) {
+				cc, okc := cv(cexpr)
+				d, isDiv := ast.Unparen(m.StripConv(q)).(*ast.BinaryExpr)
+				if !okc || cc <= 0 || !isDiv || d.Op != token.QUO {
+					return 0, 0, false
+				}
+				dc, okd := cv(d.Y)
+				if !okd || dc != cc {
+					return 0, 0, false
+				}
+				a1, k1, ok1 := lowerBoundRel(m, f, d.X, v, depth+1)
+				if !ok1 {
+					return 0, 0, false
+				}
+				return a1, k1 - (cc - 1), true
+			}
+			if a, k, ok := try(x.X, x.Y); ok {
+				return a, k, true
+			}
+			if a, k, ok := try(x.Y, x.X); ok {
+				return a, k, true
+			}
+		}
+	}
+	return 0, 0, false
 }
